@@ -33,6 +33,14 @@ STRENGTHENED = [
  ("C17r2-A", "`count()`/`nth()` overrides of the book iterator reach a subtree that `next()` never yields, plus an illegal move planted there", "the walk used `for`/`next()` only; the CLI picks moves with `count()` + `nth(k)`", "every node's `count()` and `nth(k)` for every k must describe the same list as iteration"),
  ("C18r2-A / C18r2-B", "`collect` stops after 64 items / `nth(n)` truncates n to 32 bits", "collections had at most 64 distinct squares; skip counts above 128 were only usize::MAX-ish", "collections of 70+ squares with repeats; ~70 skip counts around every power of two up to 2^63"),
  ("C19r2-A / C19r2-B", "`Rank::all().nth(n)` reduces n mod 256 / the move parser accepts any number of dashes", "skip counts were <= len+1 or usize::MAX; quick enumerated move strings up to 5 bytes", "skip counts around 2^8..2^63; move strings assembled from square tokens, separator runs of up to ten dashes and tails"),
+ ("C02r3-A / C15r3-C", "an en-passant capture that gives DIRECT check is not recorded as a checker (board equal, cached state stale)", "C02 offered near misses only at states it also expands; no catalogue root had a direct en-passant check with spare pieces for the checked side; the plugin histories never submitted illegal moves right after a special move", "C02 offers the near misses to the checked operations in every state incl. the last BFS level and the children of the `EpCheck` family; scenario `ep-direct-check`; C15 submits up to eight illegal-but-plausible moves after every rule-special first move"),
+ ("C12r3-A", "root shortcut: with exactly one legal move return it with a static score (mate not recognised)", "the oracle required 'first pass completed' via the max_depth sentinel, which the shortcut never writes; and no catalogue position was 'in check, one legal move, it mates' (two exhaustive 4-6 men searches found none)", "a search that ends by itself counts as completed; three such positions added (one constructed, two from play)"),
+ ("C11r3-A", "pass 0 is not committed when its best score is an 'unconfirmed' lost mate; max_depth is not written either", "the only observation of 'the first pass finished' was the max_depth sentinel", "second, independent observation in the logging sub-run: a tracing layer watches the engine's own 'start depth' events - once the pass for depth >= 1 has started, pass 0 is over (`search-returns-no-move-although-a-later-pass-had-started`); the author's root added"),
+ ("C11r3-B", "initial scores tightened to MateIn(2): a move that gets mated by the reply never beats the initial value, so a complete pass commits 'no move'", "needs a root where EVERY legal move allows mate in one", "all K+Q v K positions with the lone king to move and every move losing to mate in one (strided) added to the C11 catalogue"),
+ ("C03r3-C", "en-passant exposure test skipped when in check (capturer pinned on its file)", "NOT caught by C03: played and rebuilt boards are wrong in the same way and state() only differs in positions that are checkmate; C01 reports it (`illegal-move-generated:en-passant`)", "`Ep` roots added to C03 quick (catches the mate positions when they occur); for the 5-men family the king always has a flight, so C03 stays quiet - listed under 'Not caught by the owning property'"),
+ ("C05r3-B", "FEN writer assembles the text in an 84-byte buffer", "no catalogue FEN was longer than 77 bytes", "two maximally fragmented 32-piece placements with all rights and four-digit clocks (91 bytes) in C05's field products and C06's must-accept list; a panic inside the implementation during a main-process check is reported as VIOLATION `panic-in-implementation`"),
+ ("C05r3-C / C02r3-B", "`move_into` into a reused buffer does not carry the hash / inherits the buffer's half-move clock", "`move_into` was only exercised into a fresh standard board (C02)", "C03/C04/C05 write every successor with `move_into` into a buffer that held another position (Kiwipete, odd clocks) and compare it with `move_new`'s"),
+ ("C06r3-B", "'at most nine of any officer' rejects ten knights", "no promoted-material position was in the must-accept set", "eight legally reachable maximum-promotion positions (10 N / B / R, 9 Q, either colour)"),
  ("C01r2-C", "ep legality computed once with all capturers removed", "needs two capturers plus a pin / rank geometry; the quick `Ep` family had one capturer", "`Ep` level 0 now includes the two-capturer members"),
 ]
 
@@ -61,6 +69,8 @@ f"{len(rows)} changes kept; {sum(1 for m in rows if any(v['caught'] for v in m['
     out+=["","## Checks strengthened because they first missed a change",""]
     for who,what,why,fix in STRENGTHENED:
         out.append(f"* **{who}** ({what}). *Why missed:* {why}. *Now:* {fix}.")
+    out+=["","## Not caught by the owning property's check (caught by another)","",
+"* **C03r3-C** - see the note above: C01 reports it; C03 cannot within its families.",""]
     out+=["","## Not caught","",
 "* **C13r2-A** (an inner search node returns the *first* forced mate it meets instead of the shortest, so the value",
 "  depends on move-generation order, which the colour mirror reverses). The root score only changes when a node has",
